@@ -4,6 +4,7 @@ import (
 	"context"
 	"errors"
 	"fmt"
+	"math/rand"
 	"os"
 	"strings"
 	"sync"
@@ -35,6 +36,7 @@ type FoCfg struct {
 	InitErrs   map[string]*foEntJ `json:"InitErrs"`
 	Backend    string             `json:"Backend"` // ShardedMap | SyncMap (Generic: ShardedMapOf unless OfAny)
 	OfAny      bool               `json:"OfAny"`   // Generic only: FailoverOf[interface{}] over Backend (ShardedMap | SyncMap)
+	Collide    bool               `json:"Collide"` // two keys that collide under xxhash64 (SyncMap backend only: sharded maps share the slot)
 	UnitSec    int                `json:"UnitSec"`
 	Defaults   bool               `json:"Defaults"` // leave FailedUpdateTTL/UpdateTTL/TimeToLive at library defaults (UnitSec must be 40)
 	Mutability bool               `json:"Mutability"`
@@ -476,6 +478,26 @@ func (g *gateRWOf) Write(ctx context.Context, key []byte, v string) error {
 	g.s.rec(Event{Ev: "beWrite", P: p, K: mk, V: v, TTL: ttl, C: "ok", Err: errTok(err)})
 
 	return err
+}
+
+// foKeys fills the key map with the concrete keys of a Failover run: equal-length keys, so that the caller can
+// overwrite its buffer with another live key; with cfg.Collide (two keys, SyncMap behind the Failover) a constructed
+// xxhash64 collision - the Failover must keep the keys apart although their hashes are equal.
+func foKeys(cfg FoCfg, km *KeyMap, seed int64, salt int64) {
+	if cfg.Collide && len(cfg.Keys) == 2 && cfg.Backend == "SyncMap" && (!cfg.Generic || cfg.OfAny) {
+		if a, b, ok := CollidingPair(rand.New(rand.NewSource(seed*31 + salt))); ok { //nolint:gosec
+			km.ByModel[cfg.Keys[0]], km.ByModel[cfg.Keys[1]] = a, b
+			km.ByReal[string(a)], km.ByReal[string(b)] = cfg.Keys[0], cfg.Keys[1]
+
+			return
+		}
+	}
+
+	for i, k := range cfg.Keys {
+		real := []byte(fmt.Sprintf("key-%02d-%04x", i, (seed*7919+salt*31+int64(i)*104729)&0xffff))
+		km.ByModel[k] = real
+		km.ByReal[string(real)] = k
+	}
 }
 
 // ---- logger / stats call-outs ---------------------------------------------------------------------------------
